@@ -7,9 +7,9 @@
 package stress
 
 import (
-	"encoding/json"
 	"context"
 	"database/sql"
+	"encoding/json"
 	"errors"
 	"fmt"
 	"os"
@@ -23,12 +23,13 @@ import (
 	"syscall"
 	"time"
 
-	getty "github.com/apache/dubbo-getty"
 	"github.com/agiledragon/gomonkey/v2"
+	getty "github.com/apache/dubbo-getty"
 
 	"seata.apache.org/seata-go/pkg/client"
 	sqlproxy "seata.apache.org/seata-go/pkg/datasource/sql"
 	"seata.apache.org/seata-go/pkg/datasource/sql/datasource"
+	sqlexec "seata.apache.org/seata-go/pkg/datasource/sql/exec"
 	"seata.apache.org/seata-go/pkg/datasource/sql/types"
 	"seata.apache.org/seata-go/pkg/protocol/branch"
 	"seata.apache.org/seata-go/pkg/protocol/message"
@@ -243,6 +244,20 @@ func (s *fakeSession) GetActive() time.Time { return s.active }
 func (s *fakeSession) Close()               { atomic.StoreInt32(&s.closed, 1) }
 func (s *fakeSession) Stat() string         { return s.addr }
 
+// ---- SQL hooks: one common hook and typed hooks, registered before the workload starts (the
+// registration API is documented "not goroutine safe": it is used single-threaded here)
+type countingHook struct {
+	t types.SQLType
+	n int64
+}
+
+func (h *countingHook) Type() types.SQLType { return h.t }
+func (h *countingHook) Before(ctx context.Context, execCtx *types.ExecContext) error {
+	atomic.AddInt64(&h.n, 1)
+	return nil
+}
+func (h *countingHook) After(ctx context.Context, execCtx *types.ExecContext) error { return nil }
+
 // ---- TCC action
 
 type tccAction struct {
@@ -266,19 +281,20 @@ func (a *tccAction) GetActionName() string { return "verifStressAction" }
 // ---- environment of one child run
 
 type env struct {
-	co      *coord
-	drv     *fakeDriver
-	proxy   *sql.DB   // shared AT proxy handle (pool 0)
-	tmu     sync.Mutex
-	targets []*sql.DB // handles whose pools serve meta-data / undo (pool 1): found through the resources
-	metaDB  *sql.DB   // plain handle over the fake driver for direct cache access (pool 1)
-	tccP    *tcc.TCCServiceProxy
-	sess    sync.Map
-	sessSeq int64
-	lbTypes []string
-	opens   int64
-	sessOps int64
-	p2sent  int64
+	co        *coord
+	drv       *fakeDriver
+	proxy     *sql.DB // shared AT proxy handle (pool 0)
+	maxTarget int
+	tmu       sync.Mutex
+	targets   []*sql.DB // handles whose pools serve meta-data / undo (pool 1): found through the resources
+	metaDB    *sql.DB   // plain handle over the fake driver for direct cache access (pool 1)
+	tccP      *tcc.TCCServiceProxy
+	sess      sync.Map
+	sessSeq   int64
+	lbTypes   []string
+	opens     int64
+	sessOps   int64
+	p2sent    int64
 }
 
 const dsn = "u:p@tcp(127.0.0.1:3306)/db?interpolateParams=true"
@@ -355,6 +371,8 @@ func (e *env) noteTargets() {
 				}
 			}
 			if !seen && db != nil {
+				// a small pool, so that lock / pool ordering problems show as a lock-up (watchdog)
+				db.SetMaxOpenConns(e.maxTarget)
 				e.targets = append(e.targets, db)
 			}
 			e.tmu.Unlock()
@@ -606,7 +624,7 @@ func child(args map[string]string) {
 	res := &childResult{Seed: seed, Workers: workers, Secs: secs, Started: map[string]int{}, Finished: map[string]int{}, Errors: map[string]int{}}
 	rng := hutil.NewRng(seed)
 
-	e := &env{co: &coord{}, drv: &fakeDriver{}, lbTypes: []string{"RandomLoadBalance", "XID", "ConsistentHashLoadBalance", "LeastActiveLoadBalance", "RoundRobinLoadBalance"}}
+	e := &env{maxTarget: hutil.ArgInt(args, "maxtarget", 4), co: &coord{}, drv: &fakeDriver{}, lbTypes: []string{"RandomLoadBalance", "XID", "ConsistentHashLoadBalance", "LeastActiveLoadBalance", "RoundRobinLoadBalance"}}
 	cl := sgetty.GetGettyRemotingClient()
 	p := gomonkey.ApplyMethod(reflect.TypeOf(cl), "SendSyncRequest", e.co.sendSync)
 	p.ApplyMethod(reflect.TypeOf(cl), "SendAsyncRequest", func(_ *sgetty.GettyRemotingClient, msg interface{}) error { return nil })
@@ -620,6 +638,10 @@ func child(args map[string]string) {
 	sqlproxy.RegisterVerifDrivers("seata-at-verif-stress", "", e.drv)
 	sql.Register("verif-stress-plain", e.drv)
 
+	sqlexec.RegisterCommonHook(&countingHook{t: types.SQLTypeUnknown})
+	for _, t := range []types.SQLType{types.SQLTypeUpdate, types.SQLTypeInsert, types.SQLTypeDelete, types.SQLTypeSelectForUpdate} {
+		sqlexec.RegisterHook(&countingHook{t: t})
+	}
 	var err error
 	if e.tccP, err = tcc.NewTCCServiceProxy(&tccAction{}); err != nil {
 		res.Note = "tcc proxy: " + err.Error()
